@@ -8,7 +8,8 @@ variables and its answers are recorded in order.  The same history is run throug
 Engine/RunResolve.v (inside Coq) and the observations must be equal.
 
 JSON shapes
-  def    {'params': n | None, 'clauses': [{'nlocals': k, 'goals': [goal..]}]}
+  def    {'params': n | None, 'clauses': [{'nlocals': k, 'goals': [goal..]}], 'kind': one of CALLABLE_KINDS (optional; only
+         for registered Python predicates: what kind of callable object is handed to register_function)}
   goal   ['u', v, atom] | ['c', name, [v..]] | ['cut'] | ['raise']        (v = index into args ++ locals)
          | {'params': None, 'clauses': [], 'const': z}    (the constant number z: CONSTS[z], not callable)
   op     ['reg', name, 'infer' | ['explicit', n] | 'variadic', def]
@@ -21,7 +22,7 @@ JSON shapes
          ['fail', kind]                     a statement that raises (1/0, unknown name, import, class, ...)
          ['assert', name, [atom..], append] | ['clear'] | ['start', name, n] | ['next', i] | ['close', i]
 """
-import re, copy
+import re, copy, json, random, zlib
 from lib import terms
 from lib.terms import g_str, g_list, g_nat, g_bool, g_pair
 
@@ -79,12 +80,14 @@ COQ_CHUNK = 25
 RESERVED = ['__builtins__', 'variable', 'atom', 'functor', 'functor1', 'functor2', 'functor3', 'listpair',
             'makelist', 'ATOM_NIL', 'unify', 'match_dynamic', 'query', 'True', 'False']
 
-RULE = ('histories of 4-16 operations over {register_function (arity None / n / negative), load_script_from_string '
+RULE = ('histories of 4-16 operations over {register_function (arity None / n / negative; the callable is a plain def or - 60 % - a '
+        'functools.wraps wrapper (single / double), functools.partial, bound method, classmethod, callable instance, lambda with defaults, '
+        'trampoline with __signature__, decorated bound method, each around a fixed-parameter or *args predicate), load_script_from_string '
         '(overwrite on/off; compiled Prolog and hand-written Python: generator functions and lambdas under any key and with any parameter count, '
         'constants / None bound to predicate keys and to other names, del / self-assignment of names, statements raising at exec after some bindings '
         '(1/0, unknown names, import, class), broken Python), registration of non-functions, assert_fact, clear, '
         'start/next/close of suspended queries (created / suspended on a fact / suspended inside a definition while facts '
-        'and definitions change)}; after every operation every name/arity in play is queried (answers in order).  Non-trivial: at some point a key holds >= 2 chained definitions or a name has both an exact and a '
+        'and definitions change)}; after every operation every name/arity in play is queried (answers in order); in 40 % of the cases every name is queried at ALL arities 0..4.  Non-trivial: at some point a key holds >= 2 chained definitions or a name has both an exact and a '
         'variadic definition.  Distinct by hash of the case.')
 TRUSTED_BASE = [
     'Coq 8.16.1 kernel (coqc); vm_compute for the in-Coq evaluation of the model on every case',
@@ -337,7 +340,74 @@ def make_pyfunc(yp, E, d):
     else:
         ps = ','.join('a%d' % i for i in range(d['params']))
         exec('def f(%s):\n  return run((%s))\n' % (ps, ps + (',' if d['params'] else '')), ns)
-    return ns['f']
+    return dress(ns['f'], d.get('kind', 'plain'), d['params'])
+
+# The kinds of callable an application registers.  All of them ADVERTISE (inspect.signature) exactly the parameters of the
+# predicate f they are made from - d['params'] positional ones, or *args - and accept exactly what f accepts, so the
+# property (and the model, which knows only the number of parameters) treats them alike.
+CALLABLE_KINDS = ['plain', 'wraps', 'wraps2', 'partial', 'method', 'callable', 'defaults', 'sigattr', 'classmethod', 'wraps_method']
+
+def dress(f, kind, params):
+    import functools
+    if kind == 'plain':
+        return f
+    if kind in ('wraps', 'wraps2', 'wraps_method'):
+        def decorate(g):
+            @functools.wraps(g)
+            def wrapper(*args, **kwargs):
+                return g(*args, **kwargs)
+            return wrapper
+        if kind == 'wraps_method':
+            class Holder(object):
+                pass
+            Holder.pred = decorate(lambda self, *a: f(*a)) if params is None else decorate(_with_self(f, params))
+            return Holder().pred
+        return decorate(f) if kind == 'wraps' else decorate(decorate(f))
+    if kind == 'partial':
+        return functools.partial(_with_self(f, params), 'bound-first-argument')
+    if kind in ('method', 'classmethod', 'callable'):
+        g = _with_self(f, params)
+        if kind == 'method':
+            class Preds(object):
+                pred = g
+            return Preds().pred
+        if kind == 'classmethod':
+            class CPreds(object):
+                pred = classmethod(g)
+            return CPreds.pred
+        class Callable(object):
+            __call__ = g
+        return Callable()
+    if kind == 'defaults':
+        # a lambda whose parameters all have defaults, but which refuses (when it is CALLED, like a function without
+        # defaults) to run with fewer arguments
+        if not params:
+            return f
+        missing = object()
+        def need(*args):
+            if any(a is missing for a in args):
+                raise TypeError('missing argument')
+            return f(*args)
+        ps = ['a%d' % i for i in range(params)]
+        return eval('lambda %s: need(%s)' % (', '.join(p + '=missing' for p in ps), ', '.join(ps)), {'need': need, 'missing': missing})
+    if kind == 'sigattr':
+        # a generic trampoline that advertises the signature of the predicate (what decorator libraries do)
+        import inspect
+        def trampoline(*args, **kwargs):
+            return f(*args, **kwargs)
+        trampoline.__signature__ = inspect.signature(f)
+        return trampoline
+    raise ValueError(kind)
+
+def _with_self(f, params):
+    """g(self, <the parameters of f>) = f(<the parameters>)"""
+    ns = {'f': f}
+    if params is None:
+        exec('def g(self, *args):\n  return f(*args)\n', ns)
+    else:
+        ps = ', '.join('a%d' % i for i in range(params))
+        exec('def g(self%s):\n  return f(%s)\n' % (''.join(', a%d' % i for i in range(params)), ps), ns)
+    return ns['g']
 
 def _read(E, v):
     x = E.get_value(v)
@@ -1040,13 +1110,38 @@ def probes_of(ops, rng=None, cap=12):
             seen = [p for p in seen if p in keep]
     return seen[:cap]
 
+ALL_ARITIES = [0, 1, 2, 3, 4]
+
+def dress_case(case):
+    """round 4: (a) the registered Python predicates become every kind of callable (CALLABLE_KINDS), under every registration
+    style the history uses; (b) in part of the cases EVERY name in play is probed at ALL arities 0..4 after every operation
+    (a definition must never answer, or raise, under an arity it was not registered / loaded for).  The choices come from
+    a random stream of their own, derived from the history, so the histories of a seed stay what they were."""
+    r2 = random.Random(zlib.crc32(json.dumps(case['ops'], sort_keys=True).encode()))
+    for o in case['ops']:
+        if o[0] == 'reg' and 'const' not in o[3] and r2.random() < 0.6:
+            o[3]['kind'] = r2.choice(CALLABLE_KINDS[1:])
+    if r2.random() < 0.4:
+        names = []
+        for n, a in case['probes']:
+            if n not in names:
+                names.append(n)
+        r2.shuffle(names)
+        pr = [list(p) for p in case['probes']]
+        for n in names:
+            for a in ALL_ARITIES:
+                if [n, a] not in pr and len(pr) < 26:
+                    pr.append([n, a])
+        case['probes'] = pr
+    return case
+
 def gen(rng, tier):
     n = 260 if tier == 'quick' else 8000
     cases = []
     for _ in range(n):
         g = Gen(rng)
         ops = g.history()
-        cases.append({'ops': ops, 'probes': probes_of(ops, rng)})
+        cases.append(dress_case({'ops': ops, 'probes': probes_of(ops, rng)}))
     return cases
 
 # ------------------------------------------------------------------ fixed cases
@@ -1166,6 +1261,20 @@ def builtin_corpus():
           load([py('r_1', dsq), ['del', 'r_1'], ['self', 'r_1']], True), load([['del', 'p_1'], ['del', 'p_1']], True),
           load([py('helper', dsq), ['lam', 'r_1', D(1, (0, [c('p', 0)]))], ['lam', 'r_2', D(1, (0, [u(0, 'lam')]))]], True)],
          [('r', 1), ('r', 2), ('zz', 1)])
+    # ---- round 4: every kind of callable x every registration style, probed at all arities 0..4
+    for params in (0, 1, 3, None):
+        ops = [['assert', 'p', ['f'], True]] if params in (1, None) else []
+        names = []
+        for i, kind in enumerate(CALLABLE_KINDS):
+            nm = ['p', 'q', 'r', 'foo', 'foo_1'][i % 5]
+            dd = D(params, (0, [u(0, 'k%d' % i)] if params != 0 else []))
+            dd['kind'] = kind
+            style = ['infer', 'variadic', ['explicit', params if params is not None else 2]][(i + (params or 0)) % 3]
+            ops.append(['reg', nm, 'infer', dict(dd)])
+            ops.append(['reg', nm, style, dict(dd)])
+            if nm not in names:
+                names.append(nm)
+        L.append({'ops': ops, 'probes': [[n, a] for n in names for a in ALL_ARITIES]})
     return L
 
 # ------------------------------------------------------------------ reporting
@@ -1198,8 +1307,8 @@ def describe(case):
                        {'infer': 'None', 'variadic': '-1'}.get(o[2] if isinstance(o[2], str) else '', o[2][1] if not isinstance(o[2], str) else '')))
         elif o[0] == 'reg':
             nm = o[1] if o[3]['params'] is None else o[1]
-            out.append('register_function(%s, <python %s params: %s>, arity=%s)' % (
-                o[1], '*args' if o[3]['params'] is None else o[3]['params'],
+            out.append('register_function(%s, <python [%s] %s params: %s>, arity=%s)' % (
+                o[1], o[3].get('kind', 'plain'), '*args' if o[3]['params'] is None else o[3]['params'],
                 prolog_of_def_safe(nm, o[3]), {'infer': 'None', 'variadic': '-1'}.get(o[2] if isinstance(o[2], str) else '', o[2][1] if not isinstance(o[2], str) else '')))
         else:
             out.append(' '.join(str(x) for x in o))
@@ -1233,6 +1342,10 @@ def shrink(case):
                 c = dict(case); c['ops'] = ops[:i] + [['load', sc, o[2]]] + ops[i + 1:]
                 yield c
         d = o[3] if o[0] == 'reg' else None
+        if d and d.get('kind', 'plain') != 'plain':
+            d2 = dict(d); d2.pop('kind')
+            c = dict(case); c['ops'] = ops[:i] + [[o[0], o[1], o[2], d2]] + ops[i + 1:]
+            yield c
         if d and len(d['clauses']) > 1:
             for j in range(len(d['clauses'])):
                 d2 = dict(d); d2['clauses'] = d['clauses'][:j] + d['clauses'][j + 1:]
@@ -1245,9 +1358,22 @@ def distribution(cases, obs):
          'loads_ok_with_nonfunction_global': 0, 'loads_ok_combining_with_nonfunction_global_after_a_binding': 0,
          'probes_raising_on_noncallable': 0, 'exact_key_bound_to_None_hiding_variadic': 0,
          'exact_and_variadic': 0, 'suspended_resumed_after_change': 0,
-         'resumed_on_fact_after_definition_change': 0, 'first_next_after_change_since_creation': 0, 'probe_end': {}, 'answers_per_probe': {}, 'model_oof_skipped': 0}
+         'resumed_on_fact_after_definition_change': 0, 'first_next_after_change_since_creation': 0, 'probe_end': {}, 'answers_per_probe': {}, 'model_oof_skipped': 0,
+         'registered_callable_kind_x_style': {}, 'cases_probing_every_name_at_arities_0_to_4': 0, 'probes_per_case': {}}
     for c, o in zip(cases, obs):
         k = str(len(c['ops']))
+        pn = {}
+        for n_, a_ in c['probes']:
+            pn.setdefault(n_, set()).add(a_)
+        if pn and all(set(ALL_ARITIES) <= v for v in pn.values()):
+            d['cases_probing_every_name_at_arities_0_to_4'] += 1
+        kk = str(len(c['probes']) // 4 * 4)
+        d['probes_per_case'][kk] = d['probes_per_case'].get(kk, 0) + 1
+        for op in c['ops']:
+            if op[0] == 'reg' and 'const' not in op[3]:
+                kk = '%s %s %s' % (op[3].get('kind', 'plain'), op[2] if isinstance(op[2], str) else 'explicit',
+                                   '*args' if op[3]['params'] is None else 'fixed')
+                d['registered_callable_kind_x_style'][kk] = d['registered_callable_kind_x_style'].get(kk, 0) + 1
         d['history_length'][k] = d['history_length'].get(k, 0) + 1
         started = set(); changed_since = {}
         for i, op in enumerate(c['ops']):
